@@ -1,5 +1,8 @@
 """C09 -- mock parameter values compare by mathematical value, symmetrically.
 Scenario: two values.  value ::= :b 0|1 | :i <ty 0..5> <z> | :d <bits> <tolbits> | :s <bytes|~> | :p a | :cp a | :f a | :m <bytes>
+  (every string / buffer in an allocation of its own), or both payloads inside ONE allocation:
+  :am <arena> oa la ob lb   memory buffers [arena+oa,+la) and [arena+ob,+lb)
+  :as <arena> oa ob         C strings starting at arena+oa and arena+ob (the arena is followed by one NUL)
 Observation: equals(a,b) equals(b,a) and the six integer getters applied to a ('~' = the getter failed the test)."""
 import itertools
 from vlib import tz, tb
@@ -8,7 +11,10 @@ FLAVOURS = ["asan"]
 HARNESS_SRCS = ["harness/C09.cpp"]
 RULE = ("exhaustive over the 36 integer type pairs x boundary lattice {min, -2^31-1..-2^31+1, -1,0,1, 2^31-1..2^31+1, 2^32-1..2^32+1, "
         "2^63-1, 2^63, 2^64-1} (intersected with each type), all pairs of the 8 value kinds, strings incl. NULL/empty/embedded "
-        "differences, buffers of differing length, double classes incl. NaN/inf; thorough adds random 64-bit values. "
+        "differences, buffers of differing length, double classes incl. NaN/inf; payloads sharing ONE allocation: for every small arena "
+        "(periodic, with NULs, distinct bytes) all ordered pairs of windows (same address with two lengths, overlap at an offset, "
+        "identical pointer and length, disjoint equal content) and all ordered pairs of char pointers (same pointer, into the middle "
+        "of the other string, past an inner NUL); thorough adds random 64-bit values and random arenas up to 48 bytes. "
         "non-trivial = the two values are of the same kind (so the comparison is not decided by the tag alone) or a getter applies")
 ASSUMPTIONS = ["LP64 data model (int 32, long 64, long long 64)", "values are in range of their declared C type (setValue takes a T)"]
 LO = [-(1 << 31), 0, -(1 << 63), 0, -(1 << 63), 0]
@@ -20,6 +26,55 @@ DBL = [0x0, 0x8000000000000000, 0x1, 0x3ff0000000000000, 0x3ff0000000000001, 0xb
        0x7ff0000000000000, 0xfff0000000000000, 0x7ff8000000000000, 0xfff8000000000001, 0x3fe0000000000000, 0x4000000000000000]
 STRS = [None, b"", b"a", b"A", b"ab", b"ab\x00c", b"abc", b"\xff\x80", b"abd"]
 MEMS = [b"", b"\x00", b"\x00\x00", b"ab", b"ab\x00", b"ac", b"\xff"]
+
+
+# arenas for payloads that share one allocation: periodic (equal content at different addresses), with NULs, distinct bytes
+AL_MEM = [b"", b"a", b"aa", b"ab", b"aaa", b"aba", b"\x00\x00\x00", b"abab", b"ab\x00ab", b"abcabc"]
+AL_STR = [b"", b"a", b"aa", b"ab", b"aaa", b"abab", b"ab\x00ab", b"ab\x00abc", b"\x00\x00", b"a\x00a\x00a", b"abcab\xff"]
+
+
+def alias_mem(ar, oa, la, ob, lb):
+    return ":am %s %x %x %x %x" % (tb(ar), oa, la, ob, lb)
+
+
+def alias_str(ar, oa, ob):
+    return ":as %s %x %x" % (tb(ar), oa, ob)
+
+
+def alias_family(tier, rng):
+    out = []
+    # exhaustive: every ordered pair of windows / of char pointers of every small arena (both orders expectation/actual arise)
+    for ar in AL_MEM:
+        wins = [(o, l) for o in range(len(ar) + 1) for l in range(len(ar) - o + 1)]
+        out += [alias_mem(ar, oa, la, ob, lb) for (oa, la) in wins for (ob, lb) in wins]
+    for ar in AL_STR:
+        out += [alias_str(ar, oa, ob) for oa in range(len(ar) + 1) for ob in range(len(ar) + 1)]
+    # a frame expected in full, only its head (or tail, or middle) sent -- from the same address
+    frame = bytes(range(1, 17))
+    for (la, lb) in ((8, 4), (16, 1), (16, 15), (1, 0), (16, 0)):
+        for o in (0, 3):
+            if o + max(la, lb) <= len(frame):
+                out += [alias_mem(frame, o, la, o, lb), alias_mem(frame, o, lb, o, la)]
+    out += [alias_mem(frame, 0, 8, 8, 8), alias_mem(frame, 0, 8, 4, 8), alias_mem(frame, 4, 8, 0, 8), alias_mem(frame, 0, 16, 0, 16)]
+    n = 300 if tier == "quick" else 20000
+    for _ in range(n):
+        ln = rng.randrange(1, 49)
+        per = rng.choice([1, 2, 3, ln])                       # small period => equal content at different addresses is likely
+        unit = bytes(rng.choice([0, 0x61, 0x62, 0xff, rng.randrange(256)]) for _ in range(per))
+        ar = (unit * ln)[:ln]
+        if rng.random() < 0.5:
+            oa = rng.randrange(ln + 1); la = rng.randrange(ln - oa + 1)
+            c = rng.random()
+            if c < 0.35:
+                ob = oa; lb = rng.randrange(ln - ob + 1)       # same address
+            elif c < 0.7:
+                ob = rng.randrange(ln - la + 1); lb = la       # same length, any offset
+            else:
+                ob = rng.randrange(ln + 1); lb = rng.randrange(ln - ob + 1)
+            out.append(alias_mem(ar, oa, la, ob, lb))
+        else:
+            out.append(alias_str(ar, rng.randrange(ln + 1), rng.randrange(ln + 1)))
+    return out
 
 
 def ival(t, z):
@@ -57,6 +112,7 @@ def generate(tier, rng):
                 for a in l1[:3]:
                     for b in l2[:3]:
                         out.append(a + " " + b)
+    out += alias_family(tier, rng)
     n = 3000 if tier == "quick" else 200000
     for _ in range(n):
         t1, t2 = rng.randrange(6), rng.randrange(6)
@@ -85,11 +141,29 @@ def generate(tier, rng):
 
 def nontrivial(s):
     t = s.split()
+    if t[0] in (":am", ":as"):
+        return True
     return t[0] == t[3 if t[0] in (":i", ":d") else 2]
+
+
+def alias_relation(s):
+    """how the two payloads of an aliased scenario lie to each other (addresses only)"""
+    t = s.split()
+    if t[0] == ":am":
+        oa, la, ob, lb = (int(x, 16) for x in t[2:6])
+        if oa == ob:
+            return "same address, same length" if la == lb else "same address, different length"
+        if la == lb:
+            return "same length, overlapping" if abs(oa - ob) < la else "same length, disjoint"
+        return "different address and length"
+    oa, ob = int(t[2], 16), int(t[3], 16)
+    return "same pointer" if oa == ob else "different pointers"
 
 
 def classify(s):
     t = s.split()
+    if t[0] in (":am", ":as"):
+        return ["%s one allocation: %s" % ("buffers in" if t[0] == ":am" else "strings in", alias_relation(s))]
     k2 = t[3 if t[0] in (":i", ":d") else 2]
     if t[0] == ":i" and k2 == ":i":
         return ["int(%s,%s)" % (t[1], t[4])]
@@ -98,13 +172,42 @@ def classify(s):
 
 def signature(s, o):
     t = s.split()
+    if t[0] in (":am", ":as"):
+        return "%s in one allocation, %s => %s" % ("memory buffers" if t[0] == ":am" else "strings", alias_relation(s), " ".join(o.split()[:2]))
     if t[0] == ":i" and t[3] == ":i":
         return "int pair types %s,%s" % (t[1], t[4])
     return s + " => " + o
 
+def shrink(s):
+    """aliased scenarios only: cut unused arena bytes, then shorten the windows"""
+    t = s.split()
+    if t[0] == ":am":
+        ar = bytes.fromhex(t[1][1:]); oa, la, ob, lb = (int(x, 16) for x in t[2:6])
+        lo, hi = min(oa, ob), max(oa + la, ob + lb)
+        if lo > 0 or hi < len(ar):
+            yield alias_mem(ar[lo:hi], oa - lo, la, ob - lo, lb)
+        if la > 0 and lb > 0:
+            yield alias_mem(ar, oa, la - 1, ob, lb - 1)
+            yield alias_mem(ar, oa, la // 2, ob, lb // 2)
+        if la > 0:
+            yield alias_mem(ar, oa, la - 1, ob, lb)
+        if lb > 0:
+            yield alias_mem(ar, oa, la, ob, lb - 1)
+        if any(c != 0x61 for c in ar):
+            yield alias_mem(b"a" * len(ar), oa, la, ob, lb)
+    elif t[0] == ":as":
+        ar = bytes.fromhex(t[1][1:]); oa, ob = int(t[2], 16), int(t[3], 16)
+        lo = min(oa, ob)
+        if lo > 0:
+            yield alias_str(ar[lo:], oa - lo, ob - lo)
+        if len(ar) > max(oa, ob):
+            yield alias_str(ar[:-1], oa, ob)
+
+
 LEVEL_TEXT = ("Machine-checked (Coq) theorems over an executable model of MockNamedValue::equals (all 36 integer type pairs with the C casts and "
               "usual arithmetic conversions written out) and of the six integer getters: equality iff same mathematical integer, symmetry, "
-              "cross-kind inequality, NaN, getter exactness/totality. Tied to the code by an exhaustive lattice + random differential run of the "
+              "cross-kind inequality, NaN, getter exactness/totality; for strings and memory buffers that share one allocation the model compares at "
+              "addresses (MemCmp loop over one arena) and is proved to answer by length and content only, whatever the addresses. Tied to the code by an exhaustive lattice + random differential run of the "
               "extracted model against the real class, with the extracted spec evaluated on the implementation's answers.")
 LEVEL_NOTE = ("Trusted: Coq kernel, extraction (ExtrOcamlBasic), the harness and generators, LP64. Modelled not verified: the C++ itself; doubles other "
               "than NaN are decided by C03's model of doubles_equal; custom-type comparators are outside the model. Flocq brings the stdlib axioms "
